@@ -88,7 +88,7 @@ CHECKS += [
     bchk("C06", "BOUNDED, exhaustive in the property's own bound (never counted as proved). Runtime contract on the real calculate_logic_gates: the "
          "inferred AND/OR/XOR tree admits every observed successor set, for every gate tree over <= 5 (thorough 6) distinct events, depth <= 3, "
          "alternating operators, with its full outcome family; and admits exactly those sets on the stated sub-class (OR over plain events only, no AND "
-         "with two OR children). Soundness additionally on arbitrary observed families over 3 events (all) and 4 events (4000 sampled; thorough all 32767).",
+         "with two OR children). Soundness additionally on arbitrary observed families over 3 events (all) and 4 events (4000 sampled; thorough all 32767), on sampled PARTIAL observations (sub-families of 3-9 outcomes) of every enumerated tree, on random families over 5 and 6 events, on two families with an 8-event set, and after / before another inference in the same process (no hidden state).",
          "Bounded exploration: pm4py's inductive miner is external and has no contract, so no function-level contract can carry the property. "
          "Additionally PROVED (contracts/c06.py, 24 clauses, all inputs): utils.get_weighted_cover - a returned cover consists of observed sets, covers the "
          "universe, is pairwise disjoint, and every observed set is a union of whole members (what makes 'AND under OR' admit every observed set); "
@@ -96,7 +96,7 @@ CHECKS += [
          "DESIGN.md 4/C06"),
     bchk("C09", "BOUNDED (never counted as proved). The contract of find_unique_graphs - for each workflow name the selected traces contain exactly one "
          "member of every call-tree shape class, never two of one class, same answer for every batch size and ingestion order - is evaluated on the real "
-         "SQLDataHolder over all pairs of small labelled trees plus random deeper ones (DESIGN 4/C09). The recursive hash function's deductive contract "
+         "SQLDataHolder over all pairs of small labelled trees plus random deeper ones, also with a selection, late-arriving spans and a second selection, and with three 4000-span traces (DESIGN 4/C09). The recursive hash function's deductive contract "
          "(spec function H) IS part of this check: create_event_id_to_child_nodes_map and compute_graph_hash_from_event_ids are proved to compute "
          "H(n) = xxh(type(n) ++ join(sorted([H(c) | c child of n]))) over the parent links, compute_graph_hashes_from_root_nodes / compute_graph_hashes_for_batch write one row per root, and the batch walk of "
          "find_unique_graphs (a `while True` loop over get_root_nodes slices) hashes every root of the window exactly once for every batch size >= 1 "
@@ -114,14 +114,15 @@ CHECKS += [
     bchk("C11", "BOUNDED (never counted as proved). Whole-view postconditions of remove_inconsistent_jobs, remove_jobs_outside_of_time_window and "
          "update_job_names_by_root_span (exactly the broken / outside traces removed, every other row unchanged, root name everywhere, well-formedness "
          "preserved, ValueError iff the buffered window is empty) and the differential clause on PV sequences, over all pairs (sampled triples) of 17 "
-         "trace variants x time buffers x orders.",
+         "trace variants (complete, dangling parent, several workflow names - also in a broken trace -, parent in another trace [view-level clauses only]) "
+         "x time buffers x orders, the window step alone on stores with dangling parents, and two ingest + clean rounds on one holder.",
          "Bounded exploration on real sqlite for the SQL statements. Additionally PROVED (contracts/c11.py, 12 clauses): DataHolder.__init__/save_data track "
          "min start / max end, min_timestamp / max_timestamp give [0, MAXINT] when nothing was saved, get_time_window returns [min + b, max - b] and raises "
          "ValueError exactly when that window is empty; two lemmas (no ingestion => everything; buffer 0 contains every saved span).",
          "DESIGN.md 4/C11"),
     bchk("C12", "BOUNDED (never counted as proved). Contract of stream_data over the abstract view: each workflow name once, under it each stored trace "
          "once (restricted by the optional filter), each trace's spans == its nodes rows with child links == its association rows; traces longer than / "
-         "equal to / shorter than the batch size and off batch boundaries, interleaved ingestion order.",
+         "equal to / shorter than the batch size and off batch boundaries, interleaved ingestion order, one trace id under two workflow names, workflow names differing only in capitalisation.",
          "Bounded exploration on real sqlite; the nested lazy generators are consumed in the order the real consumers use. Additionally PROVED for all "
          "inputs (contracts/c12.py, 29 clauses), under the LIST reading of generators and a trusted model of itertools.groupby (maximal runs of equal "
          "keys; validated against CPython by sampling) and of the SQL row stream (one span per selected row, ordered by job_name, job_id): stream_data "
@@ -136,7 +137,7 @@ CHECKS += [
     bchk("C14", "BOUNDED (never counted as proved). Through the real entry point otel_to_puml: otel2puml on a data set versus otel2pv with saved events "
          "followed by pv2puml on the saved files, with the default and with a fully renamed field mapping, sync and async: the saved PV files hold exactly "
          "the events, links and field values of the in-memory stream (under the renamed keys), loading inverts saving, and the models learned on the two "
-         "routes are equal per workflow.",
+         "routes are equal per workflow (incl. a mapping whose custom names are other fields' standard names, and twin traces of one shape with reversed sibling order).",
          "Bounded exploration on seeded trace sets; diagram text is not compared (C03). Additionally PROVED for all inputs (contracts/c14.py, 45 clauses, "
          "the file boundary of the second sentence of the property): handle_save_events writes the n-th trace of a workflow, whole, as file n of the "
          "workflow's folder and touches no other file; save_pv_event_stream_to_file stores one dict per event, every field value under the field's "
@@ -147,7 +148,8 @@ CHECKS += [
          "DESIGN.md 4/C14"),
     bchk("C15", "BOUNDED (never counted as proved). Every history of <= 3 runs (ingest / no ingest x unique graphs on / off) of the real entry point "
          "otel_to_pv over a file-backed store, with time_buffer 0 and 1: each run terminates, keeps the store well-formed (association rows match stored "
-         "spans) and reproduces the PV sequences and selected shapes of the first run with the same flags.",
+         "spans) and reproduces the PV sequences and selected shapes of the first run with the same flags. Stores include a disconnected trace, a parent "
+         "link that crosses traces, a span delivered twice inside one batch, and a trace spanning the whole buffered window.",
          "Bounded exploration; separate runs are emulated in one process with a fresh SQLDataHolder and engine per run on the same database file. "
          "Additionally PROVED (the sidecars of C09 and C11 discharged again under this property): the two pieces of state a run can inherit - "
          "find_unique_graphs empties job_hashes before hashing, its postcondition (one row per root of the window; ValueError only for an empty window, "
